@@ -91,6 +91,11 @@ def setPend (s : State2) (c : Nat) (l : List PClaim) : State2 :=
 /-- statements of `ExecuteClaim` the model uses (obliged to equal `Gen.C04.executeClaim_steps`) -/
 def execSteps : List XStep := [.lookup, .delete, .handle]
 
+/-- the state after the handler of claim `cl` of event (c, nonce) ran with base result `b`: ghost `credited` records what
+the handler credited — the claim's amounts -/
+def afterHandle (s : State2) (c nonce : Nat) (cl : Claim) (b : State) : State2 :=
+  { s with base := b, credited := s.credited ++ cl.amounts.map (fun t => (c, nonce, t.1, t.2)) }
+
 /-- the statements of `ExecuteClaim(chain c, nonce)`, given what a nested `executeClaim` call does (`nested`).  A failing
 nested call is swallowed by the calling contract (its effects are reverted, the contract returns normally); a failing
 handler fails the whole execution (the caller's cache context drops every write, also the deletion). -/
@@ -109,8 +114,7 @@ def runX (cfg : Cfg) (nested : State2 → Nat → Nat → Except XErr State2) (c
       match step cfg s.base (cl.handler c) with
       | .error e => .error (if cl.panics then .panic else .err e)
       | .ok b =>
-        let s1 : State2 :=
-          { s with base := b, credited := s.credited ++ cl.amounts.map (fun t => (c, nonce, t.1, t.2)) }
+        let s1 := afterHandle s c nonce cl b
         match cl.reenters with
         | none => runX cfg nested c nonce r s1 f
         | some (c', m) =>
